@@ -251,7 +251,7 @@ MASS_UNITS = ["kg", "g", "mg", "t", "lb", "grams", "kilogram"]
 TEMP_UNITS = ["K", "degC", "degF"]
 OTHER_SIGS = ["m|s", "km|h", "m^2", "m^3", "kg m|s^2", "N", "J", "W", "Hz", "m s^-1", "l", "ha", "kg m^2|s^2", "N m", "b", "B", "KiB", "dozen",
               "usd", "eur", "$", "rad", "deg", "m|s^2", "kg|m^3", "MB", "kW h"]
-DIM_UNITS = {"len": LEN_UNITS, "time": TIME_UNITS, "mass": MASS_UNITS}
+DIM_UNITS = {"len": LEN_UNITS, "time": TIME_UNITS, "mass": MASS_UNITS, "temp": TEMP_UNITS}
 
 # precedence levels of the Ka grammar (Model/Render.lean): an operand written at a position that needs
 # level L stays bare when its own level is >= L
@@ -265,6 +265,7 @@ class Gen:
         self.vars = {}           # name -> type
         self.tags = set()
         self.ill_used = False
+        self.compr_vars = []
 
     # ---- text assembly
     def ws(self):
@@ -391,7 +392,7 @@ class Gen:
             self.tags.add("interval")
             return (self.join([fn, "(", a[0], ")"]), L_ATOM)
         if r < 0.93:
-            dim = rng.choice(list(DIM_UNITS))
+            dim = rng.choice(["len", "time", "mass", "temp", "len", "time", "mass"])
             q = self.g_qty(d - 1, dim)
             self.tags.add("convert")
             return (self.join([self.at(q, L_CMP), "to", rng.choice(DIM_UNITS[dim])]), L_TO)
@@ -433,7 +434,7 @@ class Gen:
         rng = self.rng
         self.tags.add("quantity")
         if dim is None:
-            dim = rng.choice(["len", "len", "time", "mass", None])
+            dim = rng.choice(["len", "len", "time", "mass", "temp", None])
         if d <= 0 or rng.random() < 0.35:
             v = self.pick_var(["qty:%s" % dim])
             if v and rng.random() < 0.4:
@@ -517,6 +518,7 @@ class Gen:
         src = self.g_arr(d - 1)
         gens = [(x, src)]
         self.vars[x] = "num"
+        self.compr_vars.append(x)
         if rng.random() < 0.25:
             y = rng.choice([c for c in ["a", "b", "c", "m"] if c != x])
             gens.append((y, self.g_arr(d - 1)))
@@ -545,6 +547,8 @@ class Gen:
         if d <= 0 or rng.random() < 0.4:
             r = rng.random()
             a, b = self.expr("num", max(0, d - 1)), self.expr("num", max(0, d - 1))
+            if rng.random() < 0.3:
+                a = (self.join(["-", self.at(a, L_FACT)]), L_SIGN)
             if r < 0.5:
                 return (self.join(["[", a[0], ",", b[0], "]"]), L_BRACK)
             if r < 0.75:
@@ -633,12 +637,23 @@ def gen_program(rng, depth=None):
         else:
             # an expression statement that begins `name =` would be an assignment: parenthesise
             stmts.append("(" + text + ")" if re.match(r"^\s*[A-Za-z_$€£¥μ][\w$€£¥μ]*\s*=[^=]", text) else text)
+    if g.compr_vars and rng.random() < 0.3:
+        # is a generator variable still bound after the comprehension?  (it must not be, unless assigned before)
+        if rng.random() < 0.5:
+            stmts.insert(0, g.join([g.compr_vars[0], "=", g.int_lit(True)]))
+        stmts.append(rng.choice(g.compr_vars))
+        nst = len(stmts)
     sep = rng.choice([";", "; ", " ; "])
     prog = sep.join(stmts)
     if rng.random() < 0.05:
         prog = rng.choice([" ", "  "]) + prog + rng.choice(["", " "])
     if nst > 1:
         g.tags.add("statements")
+    if prog and rng.random() < 0.04:
+        # a syntactically damaged program: the position of the diagnosed error is compared as well
+        i = rng.randrange(len(prog))
+        prog = prog[:i] + rng.choice(["", "", rng.choice(list("()[]{},;:|!^\"#@ 1x.")), ".."]) + prog[i + (1 if rng.random() < 0.6 else 0):]
+        g.tags.add("damaged")
     return prog, sorted(g.tags)
 
 
